@@ -271,6 +271,13 @@ class ClassInfo(object):
             return self._init_attrs
         out = {}
         init = self.methods.get("__init__")
+        # immutable defaults bound in the class body (``name = None``, ``_section = "release"``) are what an instance shows until
+        # __init__ or a reader assigns the attribute: the same table entry as ``self.name = None`` in __init__
+        for item in self.node.body:
+            if isinstance(item, ast.Assign) and len(item.targets) == 1 and isinstance(item.targets[0], ast.Name) \
+                    and isinstance(item.value, ast.Constant) and item.targets[0].id not in self.methods \
+                    and not item.targets[0].id.startswith("__"):
+                out[item.targets[0].id] = InitAttr(item.targets[0].id, item.value, item.lineno, self)
         self._init_attrs = out      # partial table visible to the folds below (self._fields)
         if init is not None:
             selfname = init.args.args[0].arg if init.args.args else "self"
@@ -1295,6 +1302,11 @@ class Model(object):
                             out.extend(seq)
                     else:
                         out.extend(ev(a, m, env))
+                return out
+            if fname in ("chain.from_iterable", "itertools.chain.from_iterable") and len(node.args) == 1 and not node.keywords:
+                out = []
+                for seq in ev(node.args[0], m, env):
+                    out.extend(seq)
                 return out
             if fname == "re.compile":
                 pat = ev(node.args[0], m, env)
